@@ -116,7 +116,10 @@ fn restarts(out: &mut Out, rng: &mut Rng, k: u64, nrestarts: usize, ninst: usize
         for i in 0..ninst {
             let mut cfg = HConfig::new(&seed);
             cfg.batch_size = *rng.pick(&[1u8, 4, 64]);
-            let _ = i;
+            // the last instance of every restart injects faults: its certificates must be genuine all the same
+            if i + 1 == ninst && ninst > 1 {
+                cfg.fault_percentage = 50;
+            }
             match Driver::new(cfg, 4) {
                 Ok(d) => drivers.push(d),
                 Err(e) => out.inconclusive(&format!("server start failed: {}", e)),
@@ -131,7 +134,11 @@ fn restarts(out: &mut Out, rng: &mut Rng, k: u64, nrestarts: usize, ninst: usize
             // socket 1 always carries the reference-computed SRV: the server's own commitment value is
             // observable through whether that request is answered
             let with_srv = crate::refimpl::req::ietf_request(&[DRAFT13], Some(&srv), &rng.bytes(32), 1024);
-            let sends = vec![(0, valid_classic(rng).data), (1, with_srv), (2, valid_classic(rng).data), (3, valid_ietf(rng, None).data)];
+            let prefix_srv = crate::refimpl::req::ietf_request(&[DRAFT13], Some(&srv[..16]), &rng.bytes(32), 1024);
+            let longer: Vec<u8> = [&srv[..], &[0u8; 4][..]].concat();
+            let longer_srv = crate::refimpl::req::ietf_request(&[DRAFT13], Some(&longer), &rng.bytes(32), 1024);
+            d.ensure_socks(6);
+            let sends = vec![(0, valid_classic(rng).data), (1, with_srv), (2, valid_classic(rng).data), (3, valid_ietf(rng, None).data), (4, prefix_srv), (5, longer_srv)];
             let round = d.round(sends, true);
             if round.panic.is_some() {
                 out.inconclusive("server panicked (C08's verdict)");
@@ -139,7 +146,15 @@ fn restarts(out: &mut Out, rng: &mut Rng, k: u64, nrestarts: usize, ninst: usize
             }
             let answered = |sock: usize| round.replies.iter().any(|r| r.sock == sock && r.matched.is_some());
             out.obs("srv_commitment_probes", 1);
-            if !answered(1) && answered(3) && !round.drops_moved {
+            let any_reply = |sock: usize| round.replies.iter().any(|r| r.sock == sock);
+            if any_reply(4) || any_reply(5) {
+                out.violation(
+                    "C10 server-srv-value matched-by-other-length",
+                    "a request whose SRV is a 16-byte prefix of (or 4 bytes longer than) SHA-512(0xff || pk)[0..32] was answered: the server's commitment value is not compared as that exact 32-byte value",
+                    desc.clone(),
+                );
+            }
+            if d.cfg.fault_percentage == 0 && !answered(1) && answered(3) && !round.drops_moved {
                 out.violation(
                     "C10 server-srv-value differs (request naming SHA-512(0xff||pk)[0..32] unanswered)",
                     "an IETF request carrying SRV = first 32 bytes of SHA-512(0xff || public key) got no reply while the same request without SRV was answered: the server's commitment value is not that value",
@@ -150,10 +165,15 @@ fn restarts(out: &mut Out, rng: &mut Rng, k: u64, nrestarts: usize, ninst: usize
                 let p = reply_proto(&rep.data);
                 // take CERT out of the reply with the reference codec, whether or not it verified
                 let payload = if p == Proto::Ietf { unframe(&rep.data).unwrap_or(&[]) } else { &rep.data[..] };
-                let Ok(m) = RefMsg::decode(payload) else {
+                // deliberately faulty replies may have their tags shuffled: read them leniently
+                let parsed = if d.cfg.fault_percentage > 0 { crate::refimpl::verify::lenient(payload).map_err(|_| ()) } else { RefMsg::decode(payload).map_err(|_| ()) };
+                let Ok(m) = parsed else {
                     out.violation("C10 reply undecodable", "reply does not decode", desc.clone());
                     continue;
                 };
+                if d.cfg.fault_percentage > 0 {
+                    out.obs("certs_from_fault_injecting_instances", 1);
+                }
                 let Some(cert) = m.get(CERT) else {
                     out.violation("C10 reply lacks-CERT", "reply without CERT", desc.clone());
                     continue;
